@@ -203,6 +203,13 @@ def _truth_with(test, kinds):
     return None
 
 
+def placement_by_value(sp):
+    """does apply_resultpath hand a deep copy of the result to update_path?  -> (by_value, number of placement calls)"""
+    arf = sp.func("apply_resultpath")
+    placed = [r.value.args[2] for r in body_nodes(arf) if isinstance(r, ast.Return) and isinstance(r.value, ast.Call) and callname(r.value) == "update_path" and len(r.value.args) == 3]
+    return bool(placed) and all(norm(x) in ("copy.deepcopy(result)", "deepcopy(result)") for x in placed), len(placed)
+
+
 def r3(chk, ctx, sp, p, se):
     # return-identity summaries, derived from the bodies
     aj = sp.func("apply_jsonpath")
@@ -248,9 +255,14 @@ def r3(chk, ctx, sp, p, se):
             if isinstance(c, ast.Call) and callname(c) == "merge_result":
                 sites.append((f, c))
     chk.floor("C12.R3", len(sites), 5, "merge_result call sites")
+    # does the placement store the result by value?  (return update_path(input, keys, copy.deepcopy(result)))
+    arf = sp.func("apply_resultpath")
+    by_value, n_placed = placement_by_value(sp)
+    chk.ob("C12.R3", "apply_resultpath hands the result to update_path (%s)" % ("a deep copy" if by_value else "by reference"), n_placed == 1, "",
+           key="apply_resultpath | placement call", where=arf.where(), message="")
     for f, c in sites:
         raw_is_event_data = True
-        alias = may_alias_raw(f, c.args[2], c.lineno)
+        alias = (not by_value) and may_alias_raw(f, c.args[2], c.lineno)
         chk.ob("C12.R3", "%s: the placed result cannot alias the raw input" % f.qname.replace(p.notify.qname + ".", ""), not alias, "",
                key="%s | the result placed by ResultPath may be (part of) the raw input itself" % f.qname, where=f.where(c),
                message="apply_resultpath stores the result by reference into the input in place: placing the input into itself builds a cyclic object (States.Runtime: circular reference)")
@@ -259,8 +271,8 @@ def r3(chk, ctx, sp, p, se):
     if ev is None:
         raise AnalysisError("anchor not found: evaluate_payload_template.evaluate")
     arms = [i for i in ast.walk(ev.node) if isinstance(i, ast.If) and norm(i.test) == "v == '$'"]
-    ok = len(arms) == 1 and [norm(s) for s in arms[0].body] == ["v = clone(input)"]
-    chk.ob("C12.R3", "a bare '$' member of a template is cloned, not stored by reference", ok, "",
+    ok = by_value or (len(arms) == 1 and [norm(s) for s in arms[0].body] == ["v = clone(input)"])
+    chk.ob("C12.R3", "a bare '$' member of a template is cloned, not stored by reference" + (" (not needed: ResultPath places a copy)" if by_value else ""), ok, "",
            key="evaluate_payload_template.evaluate | a '$' member holds the input by reference", where=ev.where(),
            message="a payload that IS the input object, written back by a non-root ResultPath, makes the input contain itself")
     # placement creates fresh intermediate nodes
